@@ -179,9 +179,32 @@ def rt(fcp: "ref:FcpV2", t: "ref:Type", v: "dyn", a: "seq[int]", b: "seq[int]"):
         rt(fcp, t.underlying_type, v, a + word_bits(1, 8), b)
 
 
-@assumed("lemmas:rep_unpack")
-def rep_unpack(b: "arr", s: "seq[int]"):
-    note("uniqueness of binary expansion: if b is the canonical packing of s, then all 8*len(b) bits of b are s followed by the "
-         "zero padding of the last byte (pad_of)")
+@lemma("lemmas:rep_bytes_ok")
+def rep_bytes_ok(b: "arr", s: "seq[int]"):
+    """the canonical packing of a bit sequence consists of bytes in 0..255"""
     requires(Rep(b, s))
-    ensures(bits_of_bytes(b) == s + pad_of(b, s) and bytes_ok(b))
+    ensures(bytes_ok(b))
+
+
+@lemma("lemmas:bit_eq")
+def bit_eq(b: "arr", s: "seq[int]", j: "int"):
+    """uniqueness of binary expansion, one bit: bit j of the bytes is bit j of the sequence they pack"""
+    requires(Rep(b, s) and bytes_ok(b) and 0 <= j and j < len(s))
+    ensures(bits_of_bytes(b)[j] == s[j])
+    split(j % 8, 8)
+    option("no_unfold", ["unpack_bits"])
+    unpack_byte(b, arr_len(b), j // 8)
+    unpack_allbits(b, arr_len(b))
+
+
+@lemma("lemmas:rep_unpack")
+def rep_unpack(b: "arr", s: "seq[int]"):
+    """if b is the canonical packing of s, the 8*len(b) bits of b are s followed by the padding of the last byte"""
+    requires(Rep(b, s))
+    ensures(bytes_ok(b))
+    ensures(bits_of_bytes(b) == s + pad_of(b, s))
+    option("no_unfold", ["unpack_bits"])
+    loop(0, over="range(len(s))", invariant=lambda it: forall(0, it, lambda i: bits_of_bytes(b)[i] == s[i]))
+    rep_bytes_ok(b, s)
+    for j in range(len(s)):
+        bit_eq(b, s, j)
